@@ -101,7 +101,7 @@ def fwdPlan (attr : Args) (i : ItemImpl) : R FwdPlan := do
   if i.trait_.isNone then bail
   if i.neg then bail
   let s ← (match i.lastSeg with | some s => pure s | none => bail : R Seg)
-  let sIdent := match s with | .mk n _ => n
+  let sIdent := match s with | .mk n _ => n | .fn n _ _ => n
   let (op, form) ← (match opFromStr sIdent with | some x => pure x | none => bail : R (BinOp × OpForm))
   -- `Args::from_attr_args`: a list of bare identifiers and `dump`
   if attr.bound.isSome then bail
